@@ -20,13 +20,33 @@ RULE = ('vector: exhaustive, every ascending label list (duplicates allowed, als
         'and InitialAlignment.refine(...).correlation/correlationStart/correlationEnd for noise-free copies (half of them at a lattice offset), '
         'noisy copies, unrelated queries, both strands, queries longer than the reference, queries reaching beyond the reference\'s last label '
         '(scipy\'s swapped branch), molecules without labels, empty secondary windows; scaled resolutions plus a few cases at the default 1400/1, 100/4, 8000. '
-        'non-trivial = distinct inputs with a non-empty result')
+        'find_peaks_unit: scipy.signal.find_peaks itself on 700 (6000) arrays of dyadic rationals / integers over small alphabets (iid, random walks, '
+        'blocks: many plateaus and ties, negative samples, lengths 0..200) with random height / distance / prominence borders, plus COMA\'s two call '
+        'patterns (height 0.75*max + distance; integers + height + prominence 0.05*max(initial=0)); the distance condition is compared with numpy\'s own '
+        'argsort order (recorded), and with the stable order wherever no two equal peaks are closer than the distance. float_borders: exhaustive, '
+        'fl(0.05*m) <= p iff m <= 20p for every integer m <= 60000 (400000) and p around m/20; ceil(fl(mpd/res)) and fl(mpd/res) < 1 against integer '
+        'arithmetic. seeding: the real coordinator chain (__getPrimaryCorrelations on every reference and both strands -> selectPeaks -> '
+        '__getSecondaryCorrelation/refine) on 36 (260) generated cases: queries of e2e data sets (2 references of 80..200 labels, 12 parameter sets, '
+        'peaksCount 1..7), scaled synthetic maps incl. malformed ones (exceptions), periodic references whose peaks are exactly floor(distance) bins apart; '
+        'two tiers, see TRUSTED. non-trivial = distinct inputs with a non-empty result')
 TRUSTED = ['adapter: fake correlations are objects with a .peaks list of real Peak objects; a peak is identified by its (unique) position',
            'np.argpartition is not modelled: the model takes the cut as an argument, the checker accepts any output that is a '
            'sub-multiset of the right size with the same top scores (theorem C16_cut_harmless quantifies over every such cut)',
            'scipy.signal.correlate(method=fft): floating-point rounding of the FFT is not modelled; np.rint of its output is compared with the exact '
            'integer model (the check also fails if an output is further than 1e-6 from an integer); normalised correlation compared within 1e-9',
-           'scipy.signal.find_peaks is not modelled (it runs inside the real getInitialAlignment/refine calls; its output is ignored here)']
+           'stream seeding_correlation: find_peaks runs inside the real getInitialAlignment/refine calls and its output is ignored there; it IS modelled '
+           '(model/FindPeaks.v) and compared by the streams find_peaks_unit and seeding',
+           'seeding, float tier: the three things the code computes in floating point before find_peaks - the normalised correlation (doubles, sent exactly as '
+           'multiples of 2^-62), the height border 0.75*max (checked in Coq to be within 2^-52 of 3/4 max) and numpy\'s argsort inside the distance condition '
+           '(checked in Coq to be an argsort) - are taken from the code; everything from find_peaks on (createPeaks, noise level, selectPeaks, refine) is the '
+           'model\'s.  Left out: a createPeaks cut whose border falls between equal heights (numpy leaves the SET unspecified), scores of different correlations '
+           'closer than 1e-9; compared as multisets / sets: selections in which argpartition kept equal heights, more than 10 secondary peaks',
+           'seeding, exact tier: Seeding.all_primary from the maps alone; a disagreement is tolerated only in cases flagged by an independent re-implementation '
+           'in harness/seeding.py (exact_found: find_peaks on exact rationals): the peaks scipy found on the code\'s float correlation differ in bins or height '
+           'ranking from those of the exact rational correlation, i.e. FFT rounding noise decides the code\'s result (measured: quick 24 of 35 cases flagged, 7 of them '
+           'disagree; thorough 176 of 255 flagged, 32 of them disagree; every unflagged case and all other flagged cases agree)',
+           'Peak.score order: the model decides height - sqrt(mean square) exactly (le_sqrt); its two shortcuts (same correlation: by height; disjoint '
+           'enclosures from floor(sqrt(M) 2^80)) are compared with the plain algebraic test on all pairs of primary peaks of part of the cases']
 ASSUMPTIONS = ['labels ascending (CMAP reader sorts them, C17); resolution >= 1',
                'heights, noise levels and scores are integer-valued floats in the generated cases, so height - noiseLevel and comparisons are exact',
                'positions=[] with end None/0 raises IndexError in the code (positions[-1]); the model (vectorise_py) returns Err there and the '
@@ -902,5 +922,8 @@ Definition check (c : Z * list Z * Z * list Z * (Z * Z * bool) * option (option 
         return repr(case) if out['initial'].get('f') or any(o.get('v') for o in out['refine']) else None
 
 
+# the executable seeding stage (model/FindPeaks.v, model/Seeding.v): harness/seeding.py
+from .. import seeding as _sd
+
 STREAMS = [VecExh(), VecRandom(), VecMalformed(), BlurExh(), BlurRandom(), Centre(), PeaksExh(), PeaksRandom(), Create(), Seeds(),
-           XcorrExh(), XcorrRandom(), Sequence(), Seeding()]
+           XcorrExh(), XcorrRandom(), Sequence(), Seeding(), _sd.FindPeaksUnit(), _sd.FloatBorders(), _sd.SeedingChain()]
